@@ -140,6 +140,27 @@ impl Router {
     }
 
     fn on_request(&self, request: Request) -> bool {
+        use std::panic::AssertUnwindSafe;
+
+        // every request is answered exactly once: if the handler panics before it responded
+        // (unknown file, stale code action id, unknown method, ...) the client gets an error
+        // instead of waiting forever
+        let id = request.id.clone();
+        match panic::catch_unwind(AssertUnwindSafe(|| self.handle_request(request))) {
+            Ok(shutdown) => shutdown,
+            Err(_) => {
+                error!("request handler panicked, responding with an internal error");
+                self.respond(Response::new_err(
+                    id,
+                    ErrorCode::InternalError as i32,
+                    "request handler panicked".to_string(),
+                ));
+                false
+            }
+        }
+    }
+
+    fn handle_request(&self, request: Request) -> bool {
         if request.method == "shutdown" {
             self.respond(Response {
                 id: request.id.clone(),
@@ -159,6 +180,12 @@ impl Router {
                 method: "workspace/applyEdit".to_string(),
                 params: to_value(result).unwrap(),
             }));
+
+            self.respond(Response {
+                id: request.id,
+                result: Some(serde_json::Value::Null),
+                error: None,
+            });
 
             return false;
         }
